@@ -1079,6 +1079,14 @@ Section AListMore.
     - apply IH. intros Hc. apply H. right; exact Hc.
   Qed.
 
+  Lemma aget_none_not_in k (l : list (N * V)) : aget N.eqb k l = None -> ~ In k (map fst l).
+  Proof.
+    induction l as [|[k' v'] r IH]; simpl; [intros _ []|].
+    destruct (N.eqb k k') eqn:E; [discriminate|]. intros H [Hc|Hc].
+    - apply N.eqb_neq in E. apply E. symmetry. exact Hc.
+    - exact (IH H Hc).
+  Qed.
+
   Lemma nodup_filter_keys srcs (l : list (N * V)) :
     NoDup (map fst l) -> NoDup (map fst (filter (keep_not srcs) l)).
   Proof. apply nodup_map_filter. Qed.
@@ -1269,8 +1277,10 @@ Proof.
   induction lv as [|[p l] r IH]; simpl; intros Hne; [reflexivity|].
   assert (IH' := IH (fun q Hq => Hne q (or_intror Hq))). clear IH.
   unfold keep_not at 2. cbn [fst]. destruct (memN p srcs) eqn:Em; cbn [negb].
-  - rewrite filter_app, <- IH'. unfold local_row at 3. cbn [fst snd].
-    destruct (aget N.eqb p chunks); cbn [filter r_path]; [rewrite Em|]; reflexivity.
+  - rewrite filter_app, <- IH'.
+    assert (Hz : filter (fun r0 : crow => negb (memN (r_path r0) srcs)) (local_row chunks (p, l)) = []).
+    { unfold local_row. cbn [fst snd]. destruct (aget N.eqb p chunks); cbn [filter r_path]; [rewrite Em|]; reflexivity. }
+    rewrite Hz. reflexivity.
   - cbn [flat_map]. rewrite filter_app, <- IH'. f_equal.
     unfold local_row. cbn [fst snd].
     assert (Hp : p <> t) by (apply Hne; left; reflexivity).
@@ -1281,11 +1291,7 @@ Proof.
         apply in_map_iff. exists (p, c). split; [reflexivity|exact Eg].
       - rewrite aget_app_r.
         + simpl. replace (N.eqb p t) with false by (symmetry; apply N.eqb_neq; exact Hp). reflexivity.
-        + intros Hc. apply in_map_iff in Hc. destruct Hc as [[k v] [Hk Hin]]. simpl in Hk. subst k.
-          pose proof (In_aget_nodup N.eqb Neqb_spec) as _.
-          clear -Eg Hin. induction (filter (keep_not srcs) chunks) as [|[k' v'] r IH]; [contradiction|].
-          simpl in Eg. destruct (N.eqb p k') eqn:E; [discriminate|].
-          destruct Hin as [Hin|Hin]; [inversion Hin; subst; rewrite N.eqb_refl in E; discriminate|exact (IH Eg Hin)]. }
+        + apply aget_none_not_in. exact Eg. }
     rewrite Hg. destruct (aget N.eqb p chunks); cbn [filter r_path]; [rewrite Em|]; reflexivity.
 Qed.
 
@@ -1326,7 +1332,7 @@ Proof.
       rewrite (find_row_nodup _ _ (proj1 (local_wf_rows c t (conj Hnd (conj Hbl Hbc)))) Hin). cbn [option_map].
       rewrite local_rows_eq in Hin. apply local_rows_in in Hin.
       apply (In_aget_nodup N.eqb Neqb_spec); assumption.
-  - cbn [l_chunks l_levels]. rewrite (aset_app_last _ _ _ _ Htfl). split; [|split].
+  - cbn [l_chunks l_levels]. rewrite (aset_app_last _ _ _ _ Htfl). split; [|split]; cbn [l_chunks l_levels].
     + rewrite map_app. cbn [map fst]. apply nodup_app_iff. split; [apply nodup_filter_keys; exact Hnd|].
       split; [constructor; [intros []|constructor]|].
       intros x Hx [Hc|[]]. subst x. exact (Htfl Hx).
@@ -1364,4 +1370,207 @@ Proof.
   unfold local_run. assert (H : NoDup (map fst (l_levels lcat_empty))) by constructor.
   revert H. generalize lcat_empty. induction h as [|o r IH]; simpl; intros c H; [exact H|].
   apply IH. apply local_apply_nodup. exact H.
+Qed.
+
+(* ================================================================== *)
+(* Part 4: the theorems of C20 for the two backends                     *)
+(* ================================================================== *)
+Definition s3_Inv (st : cstate cat) : Prop := s3_wf (st_cat st) (st_fresh st).
+Definition local_Inv (st : cstate lcat) : Prop := local_wf (st_cat st) (st_fresh st).
+
+Lemma s3_level_ok' lvl tgt rows gs :
+  NoDup (map r_path rows) -> b_level s3_backend lvl tgt rows = Some gs -> sel_ok lvl rows gs.
+Proof. apply s3_level_ok. Qed.
+Lemma local_level_ok' lvl tgt rows gs :
+  NoDup (map r_path rows) -> b_level local_backend lvl tgt rows = Some gs -> sel_ok lvl rows gs.
+Proof. apply local_level_ok. Qed.
+
+Lemma measure_le_3n rows : (measure_rows rows <= 3 * length rows)%nat.
+Proof. unfold measure_rows. pose proof (filter_length_le (fun r => N.eqb (r_level r) 0) rows). lia. Qed.
+
+Ltac backend_hyps :=
+  first [ exact s3_wf_rows | exact s3_merge_ok | exact s3_l0_ok | exact s3_level_ok'
+        | exact local_wf_rows | exact local_merge_ok | exact local_l0_ok | exact local_level_ok' ].
+
+(* ---- every state reached from a catalog history is well-formed ---- *)
+Theorem s3_reachable_inv (h : list cop) : s3_Inv (s3_init (s3_run h)).
+Proof. apply s3_init_wf. apply s3_run_nodup. Qed.
+Theorem local_reachable_inv (h : list cop) : local_Inv (local_init (local_run h)).
+Proof. apply local_init_wf. apply local_run_nodup. Qed.
+
+Theorem s3_run_cycles_inv h st : s3_Inv st -> s3_Inv (run_cycles s3_backend h st).
+Proof. intros H. apply (run_cycles_facts s3_backend s3_wf); try backend_hyps. exact H. Qed.
+Theorem local_run_cycles_inv h st : local_Inv st -> local_Inv (run_cycles local_backend h st).
+Proof. intros H. apply (run_cycles_facts local_backend local_wf); try backend_hyps. exact H. Qed.
+
+(* ---- groups_disjoint + groups_single_level ---- *)
+Theorem s3_groups_ok i st lvl seen gs :
+  s3_Inv st -> In (ESel lvl seen gs) (cycle_events s3_backend i st) ->
+  NoDup (concat gs) /\
+  (forall g p, In g gs -> In p g -> exists r, In r seen /\ r_path r = p /\ r_level r = u32_of lvl) /\
+  NoDup (map r_path seen) /\
+  (forall r, In r seen -> In r (s3_rows (st_cat st)) \/ st_fresh st <= r_path r).
+Proof. intros H. apply (groups_disjoint_single_level s3_backend s3_wf); try backend_hyps. exact H. Qed.
+
+Theorem local_groups_ok i st lvl seen gs :
+  local_Inv st -> In (ESel lvl seen gs) (cycle_events local_backend i st) ->
+  NoDup (concat gs) /\
+  (forall g p, In g gs -> In p g -> exists r, In r seen /\ r_path r = p /\ r_level r = u32_of lvl) /\
+  NoDup (map r_path seen) /\
+  (forall r, In r seen -> In r (local_rows (st_cat st)) \/ st_fresh st <= r_path r).
+Proof. intros H. apply (groups_disjoint_single_level local_backend local_wf); try backend_hyps. exact H. Qed.
+
+(* ---- merged target = 1 + level of its (single-level) sources ---- *)
+Theorem s3_merge_rule i st lvl g t m nl :
+  s3_Inv st -> In (EMerge lvl g t m nl) (cycle_events s3_backend i st) ->
+  g <> [] /\ nl = Some (u32_of lvl + 1) /\
+  exists seen gs, In (ESel lvl seen gs) (cycle_events s3_backend i st) /\ In g gs /\
+    forall p, In p g -> exists r, In r seen /\ r_path r = p /\ r_level r = u32_of lvl.
+Proof. intros H. apply (merge_level_rule s3_backend s3_wf); try backend_hyps. exact H. Qed.
+
+Theorem local_merge_rule i st lvl g t m nl :
+  local_Inv st -> In (EMerge lvl g t m nl) (cycle_events local_backend i st) ->
+  g <> [] /\ nl = Some (u32_of lvl + 1) /\
+  exists seen gs, In (ESel lvl seen gs) (cycle_events local_backend i st) /\ In g gs /\
+    forall p, In p g -> exists r, In r seen /\ r_path r = p /\ r_level r = u32_of lvl.
+Proof. intros H. apply (merge_level_rule local_backend local_wf); try backend_hyps. exact H. Qed.
+
+(* ---- level_monotone ---- *)
+Theorem s3_level_monotone h1 h2 st p a b :
+  s3_Inv st ->
+  level_in s3_backend (st_cat (run_cycles s3_backend h1 st)) p = Some a ->
+  level_in s3_backend (st_cat (run_cycles s3_backend (h1 ++ h2) st)) p = Some b ->
+  a = b.
+Proof. intros H. apply (level_monotone s3_backend s3_wf); try backend_hyps. exact H. Qed.
+
+Theorem local_level_monotone h1 h2 st p a b :
+  local_Inv st ->
+  level_in local_backend (st_cat (run_cycles local_backend h1 st)) p = Some a ->
+  level_in local_backend (st_cat (run_cycles local_backend (h1 ++ h2) st)) p = Some b ->
+  a = b.
+Proof. intros H. apply (level_monotone local_backend local_wf); try backend_hyps. exact H. Qed.
+
+Theorem s3_no_resurrection h1 h2 h3 st p a :
+  s3_Inv st ->
+  level_in s3_backend (st_cat (run_cycles s3_backend h1 st)) p = Some a ->
+  level_in s3_backend (st_cat (run_cycles s3_backend (h1 ++ h2) st)) p = None ->
+  level_in s3_backend (st_cat (run_cycles s3_backend (h1 ++ h2 ++ h3) st)) p = None.
+Proof. intros H. apply (no_resurrection s3_backend s3_wf); try backend_hyps. exact H. Qed.
+
+Theorem local_no_resurrection h1 h2 h3 st p a :
+  local_Inv st ->
+  level_in local_backend (st_cat (run_cycles local_backend h1 st)) p = Some a ->
+  level_in local_backend (st_cat (run_cycles local_backend (h1 ++ h2) st)) p = None ->
+  level_in local_backend (st_cat (run_cycles local_backend (h1 ++ h2 ++ h3) st)) p = None.
+Proof. intros H. apply (no_resurrection local_backend local_wf); try backend_hyps. exact H. Qed.
+
+(* ---- converges ---- *)
+Definition converges_stmt {C} (B : backend C) (Inv : cstate C -> Prop) : Prop :=
+  (* a cycle without a merge changes nothing *)
+  (forall i st, Inv st -> merges_of (cycle_events B i st) = O -> cycle_state B i st = st) /\
+  (* a cycle with a merge strictly decreases the measure *)
+  (forall i st, Inv st -> merges_of (cycle_events B i st) <> O ->
+                (measure B (cycle_state B i st) < measure B st)%nat) /\
+  (* over any history (configurations, hash orders and oracles may change from
+     cycle to cycle) at most [measure st] <= 3 * #chunks merges happen *)
+  (forall h st, Inv st -> (total_merges B h st + measure B (run_cycles B h st) <= measure B st)%nat) /\
+  (forall st, (measure B st <= 3 * length (b_rows B (st_cat st)))%nat) /\
+  (* hence among the first measure+1 cycles there is one that changes nothing *)
+  (forall h st, Inv st -> (measure B st < length h)%nat ->
+     exists n, (n <= measure B st)%nat /\ (n < length h)%nat /\
+               run_cycles B (firstn (S n) h) st = run_cycles B (firstn n h) st) /\
+  (* and with a fixed input the state is a fixpoint from then on *)
+  (forall i st, Inv st -> exists n, (n <= measure B st)%nat /\
+     forall k, run_cycles B (repeat i (n + k)) st = run_cycles B (repeat i n) st).
+
+Theorem s3_converges : converges_stmt s3_backend s3_Inv.
+Proof.
+  unfold converges_stmt. repeat split.
+  - intros i st H. apply (noop_cycle s3_backend s3_wf); try backend_hyps. exact H.
+  - intros i st H. apply (merging_cycle_decreases s3_backend s3_wf); try backend_hyps. exact H.
+  - intros h st H. apply (merges_bounded s3_backend s3_wf); try backend_hyps. exact H.
+  - intros st. apply measure_le_3n.
+  - intros h st H. apply (converges s3_backend s3_wf); try backend_hyps. exact H.
+  - intros i st H. apply (converges_fixed s3_backend s3_wf); try backend_hyps. exact H.
+Qed.
+
+Theorem local_converges : converges_stmt local_backend local_Inv.
+Proof.
+  unfold converges_stmt. repeat split.
+  - intros i st H. apply (noop_cycle local_backend local_wf); try backend_hyps. exact H.
+  - intros i st H. apply (merging_cycle_decreases local_backend local_wf); try backend_hyps. exact H.
+  - intros h st H. apply (merges_bounded local_backend local_wf); try backend_hyps. exact H.
+  - intros st. apply measure_le_3n.
+  - intros h st H. apply (converges local_backend local_wf); try backend_hyps. exact H.
+  - intros i st H. apply (converges_fixed local_backend local_wf); try backend_hyps. exact H.
+Qed.
+
+(* the cycle never runs into the `complete_compaction(..)?` error path *)
+Theorem s3_cycle_no_error i st : s3_Inv st -> snd (fst (cycle s3_backend i st)) <> CSErr.
+Proof.
+  intros H. pose proof (cycle_ok s3_backend s3_wf s3_wf_rows s3_merge_ok s3_l0_ok s3_level_ok' i st H) as Hc.
+  destruct (cycle s3_backend i st) as [[st' s] ev]. simpl. apply Hc.
+Qed.
+Theorem local_cycle_no_error i st : local_Inv st -> snd (fst (cycle local_backend i st)) <> CSErr.
+Proof.
+  intros H. pose proof (cycle_ok local_backend local_wf local_wf_rows local_merge_ok local_l0_ok local_level_ok' i st H) as Hc.
+  destruct (cycle local_backend i st) as [[st' s] ev]. simpl. apply Hc.
+Qed.
+
+(* ---- the selection functions themselves, for every catalog ---- *)
+Theorem selection_groups_ok :
+  (forall thr rows, NoDup (map r_path rows) -> sel_ok 0 rows (s3_l0 thr rows)) /\
+  (forall thr rows, NoDup (map r_path rows) -> sel_ok 0 rows (local_l0 thr rows)) /\
+  (forall lvl tgt rows gs, NoDup (map r_path rows) -> s3_level lvl tgt rows = Some gs -> sel_ok lvl rows gs) /\
+  (forall lvl tgt rows gs, NoDup (map r_path rows) -> local_level lvl tgt rows = Some gs -> sel_ok lvl rows gs) /\
+  (forall ord rows, NoDup (map r_path rows) ->
+     NoDup (map r_path (reorder ord rows)) /\ forall r, In r (reorder ord rows) <-> In r rows).
+Proof.
+  split; [intros thr rows H; apply (s3_l0_ok thr rows H)|].
+  split; [intros thr rows H; apply (local_l0_ok thr rows H)|].
+  split; [exact s3_level_ok|]. split; [exact local_level_ok|].
+  intros ord rows H. split; [apply reorder_nodup; exact H|intros r; apply reorder_In; exact H].
+Qed.
+
+(* ================================================================== *)
+(* non-vacuity: concrete runs                                           *)
+(* ================================================================== *)
+Definition ex_H : Z := Consts.S3_L0_BUCKET_NANOS.
+Definition ex_meta (mn mx : Z) (sz : N) : cmeta := mkMeta mn mx 1 sz.
+Definition ex_oracle (g : list path) : cmeta := mkMeta 0 0 (N.of_nat (length g)) 700.
+Definition ex_hist : list cop :=
+  [ORegister 1 (ex_meta 10 20 100); ORegister 2 (ex_meta 30 40 100); ORegister 3 (ex_meta 50 60 100);
+   ORegister 4 (ex_meta (2 * ex_H) (2 * ex_H + 5) 100)].
+Definition ex_in (thr : N) : cinput := mkIn (mkCfg thr 1000 5000 3) [] ex_oracle.
+
+(* threshold 2: chunks 1,2,3 (one hour bucket) merge into chunk 5 at level 1;
+   chunk 4 stays; the second cycle changes nothing; both backends agree *)
+Example ex_threshold_2 :
+  let st := s3_init (s3_run ex_hist) in
+  s3_Inv st /\
+  filter is_merge (cycle_events s3_backend (ex_in 2) st) = [EMerge 0 [1; 2; 3] 5 (ex_oracle [1; 2; 3]) (Some 1)] /\
+  map (fun r => (r_path r, r_level r)) (s3_rows (st_cat (cycle_state s3_backend (ex_in 2) st))) = [(4, 0); (5, 1)] /\
+  run_cycles s3_backend [ex_in 2; ex_in 2] st = run_cycles s3_backend [ex_in 2] st /\
+  map (fun r => (r_path r, r_level r))
+      (local_rows (st_cat (cycle_state local_backend (ex_in 2) (local_init (local_run ex_hist))))) = [(4, 0); (5, 1)].
+Proof.
+  split; [apply s3_reachable_inv|]. split; [vm_compute; reflexivity|]. split; [vm_compute; reflexivity|].
+  split; vm_compute; reflexivity.
+Qed.
+
+(* threshold 0 (and 1): a single level-0 chunk is rewritten into a level-1
+   chunk, once; afterwards nothing is selectable any more.  On the in-memory
+   backend the two level-1 chunks are then merged by the level-1 pass of the
+   same cycle when the target size is reached; on the object-store backend the
+   same happens.  Three cycles reach the fixpoint well within the bound. *)
+Example ex_threshold_0 :
+  let st := local_init (local_run ex_hist) in
+  local_Inv st /\
+  merges_of (cycle_events local_backend (ex_in 0) st) = 3%nat /\
+  map (fun r => (r_path r, r_level r)) (local_rows (st_cat (cycle_state local_backend (ex_in 0) st))) = [(7, 2)] /\
+  run_cycles local_backend [ex_in 0; ex_in 0] st = run_cycles local_backend [ex_in 0] st /\
+  (measure local_backend st = 12)%nat.
+Proof.
+  split; [apply local_reachable_inv|]. split; [vm_compute; reflexivity|]. split; [vm_compute; reflexivity|].
+  split; vm_compute; reflexivity.
 Qed.
